@@ -1843,6 +1843,10 @@ class _AnsiSettingPoint:
                         # Just ignore empty string
                         if format != '':
                             try:
+                                # Only decimal digits (surrounding blanks tolerated) are a code; int() alone would
+                                # also accept a sign, underscores and non-ASCII digits
+                                if not (format.strip().isascii() and format.strip().isdigit()):
+                                    raise ValueError()
                                 int_value = int(format)
                             except ValueError:
                                 raise ValueError(
